@@ -64,7 +64,15 @@ def build(case, only=None):
             faults.append({"at": ["event", f["k"]], "do": "vanish", "session": "s0", "how": f.get("how", "rst")})
         elif f["kind"] == "fs":
             faults.append({"at": ["fslabel", f["k"]], "session": "s0", "errno": errno.EIO})
+        elif f["kind"] == "cutstep":
+            # the peer of session 0 vanishes at event-loop step k (zero-latency network: a step is
+            # one wake-up of one task, so this reaches the middle of a handler)
+            faults.append({"at": ["step", f["k"]], "do": "vanish", "session": "s0", "how": f.get("how", "rst")})
     srv = {"block_size": B, "idle_timeout": None, "socket_timeout": None, "wait_future_timeout": None, "users": users if mode == "base" else [dict(u) for u in USERS_PREFIX]}
+    if case.get("data_ports"):
+        srv["data_ports"] = list(case["data_ports"])
+    if case.get("net"):
+        net.update(case["net"])
     lim = case.get("limits")
     if lim:
         # a speed limit shared by all sessions (server-wide, or per user with every session on
@@ -427,12 +435,19 @@ def main(argv=None):
         print("not reproduced")
         return 0
     quick = a.tier == "quick"
-    ev = common.Evidence(PROP, a.tier, a.seed, "exploration", "pairs / triples of corpus scripts on disjoint subtrees (private prefixes of one base directory with same or different users, or different users' base directories with identical textual paths), each run solo and then together under seeded interleavings (latencies, backend delays, start offsets, task-hash salt), optionally with session 0 cut / faulted; non-trivial = the sessions' network events actually alternated; distinct = distinct run digests; distinct interleavings are counted by signature (order of network events projected on session ids) Every third case is a lock-step run: 2..3 raw sessions in different states write their k-th line in the same event-loop step.")
+    ev = common.Evidence(PROP, a.tier, a.seed, "exploration", "pairs / triples of corpus scripts on disjoint subtrees (private prefixes of one base directory with same or different users, or different users' base directories with identical textual paths), each run solo and then together under seeded interleavings (latencies, backend delays, start offsets, task-hash salt), optionally with session 0 cut / faulted; non-trivial = the sessions' network events actually alternated; distinct = distinct run digests; distinct interleavings are counted by signature (order of network events projected on session ids) A step sweep tears session 0 down at every event-loop step of its login / EPSV / PASV exchange on a one-port passive pool while session 1 starts later.  Every third case is a lock-step run: 2..3 raw sessions in different states write their k-th line in the same event-loop step.")
     rep = common.Reporter(PROP, ev)
     deadline = time.time() + (a.budget or (75 if quick else 1500))
     n = 1500 if quick else 200000
     with common.Pool() as pool:
         def gen():
+            # step sweep: session 0 is torn down at every event-loop step of its connect / login /
+            # CWD / EPSV / PASV exchange on a server with a one-port passive pool; session 1 starts
+            # three seconds later and must see what it sees alone (a listener orphaned by the
+            # teardown would keep the only port busy)
+            for k in range(1, 170):
+                for how in ("rst", "fin"):
+                    yield {"seed": a.seed * 1000 + 7, "scripts": ["no_dconn", ("stor_retr", "mlsd_list", "big_retr")[k % 3]], "mode": "prefix", "logins": ["anonymous", "anonymous"], "starts": [0.0, 3.0], "data_ports": [40000], "small_pipe": False, "fs_delay": None, "net": {"latency": [0.0, 0.0], "send_delay": 0.0, "accept_delay": [0.0, 0.0], "seg_mode": "whole"}, "fault": {"kind": "cutstep", "k": k, "how": how}}
             for i in range(n):
                 yield gen_case(a.seed * 1_000_000 + i)
                 if i % 2 == 0:
